@@ -1,6 +1,10 @@
-/-! Driver entry for property C02 (stub: not implemented yet). -/
+import HeartwoodModel.Model.Fetch
+import HeartwoodModel.Driver.Util
+import HeartwoodModel.Driver.C01
+/-! Driver entry for C02. C01 and C02 share one model (`Model/Fetch.lean`), one harness set-up and one
+case format (DESIGN.md §6): the case parser and printer live in `Driver/C01.lean`. -/
 namespace HeartwoodModel.Driver.C02
 
-def run (_args : List String) : String := "unimplemented"
+def run (args : List String) : String := HeartwoodModel.Driver.C01.run args
 
 end HeartwoodModel.Driver.C02
